@@ -137,7 +137,7 @@ class Result:
         self.samples = []
         self.cuts = {}
         self.queries = []
-        self.stats = {"sat": 0, "unsat": 0, "unknown": 0, "solver_time_s": 0.0}
+        self.stats = {"sat": 0, "unsat": 0, "unknown": 0, "solver_time_s": 0.0, "max_query_s": 0.0}
         self.funcs = {}
         self.exhausted = True
         self.wall = 0.0
@@ -157,7 +157,10 @@ class Result:
         if len(self.queries) < 24:
             self.queries.extend(o["queries"][:2])
         for k in self.stats:
-            self.stats[k] += o["stats"][k]
+            if k == "max_query_s":
+                self.stats[k] = max(self.stats[k], o["stats"].get(k, 0.0))
+            else:
+                self.stats[k] += o["stats"][k]
         self.funcs.update(o["funcs"])
         self.maxdepth = max(self.maxdepth, o["maxdepth"])
 
@@ -395,7 +398,10 @@ def explore_fork(hidx, workers, deadline, max_paths, seed):
         res.maxdepth = max(res.maxdepth, rec.get("depth", 0))
         res.goals |= set(rec.get("goals", ()))
         for k, v in (rec.get("stats") or {}).items():
-            res.stats[k] += v
+            if k == "max_query_s":
+                res.stats[k] = max(res.stats[k], v)
+            else:
+                res.stats[k] += v
         if "sample" in rec and len(res.samples) < 12:
             res.samples.append(rec["sample"])
         if "query" in rec and len(res.queries) < 24:
